@@ -133,7 +133,11 @@ def scenario(rep, r, kind, cfg, k1, k2, frozen, tmpdir, tag):
                 ch.next_update = 100
         if kind == "hmc":
             ch.ES.chk_int = 15
-    step(ch, kind, k1)
+    try:
+        step(ch, kind, k1)
+    except Exception:
+        rep.count("original_run_failed_before_saving(not a C09 matter)")
+        return terms, []
     twin = copy.deepcopy(ch)                 # never saved, same generator state
     rng_saved = copy.deepcopy(rng)
     try:
